@@ -185,7 +185,7 @@ func parseValues(dataPoints string) (points []Value, err error) {
 		return nil, nil
 	}
 
-	fields := strings.FieldsFunc(dataPoints, func(r rune) bool { return r == ' ' || r == ',' })
+	fields := strings.FieldsFunc(dataPoints, func(r rune) bool { return r == ' ' || r == ',' || r == '\t' || r == '\n' || r == '\r' })
 	points = make([]Value, len(fields))
 	for i, v := range fields {
 		val, err := parseValue(v)
@@ -250,7 +250,7 @@ func parseViewbox(attr string) (Rectangle, error) {
 func parseTransform(attr string) (out []transform, err error) {
 	ts := strings.Split(attr, ")")
 	for _, t := range ts {
-		t = strings.TrimSpace(t)
+		t = strings.Trim(t, " \t\r\n,") // transforms are separated by white space and/or a comma
 		if len(t) == 0 {
 			continue
 		}
